@@ -2,3 +2,6 @@
    no panic, termination with linear fuel, tie to the model. *)
 From Verif.Tie.Loops Require Common Scan Cran Semver Debian.
 From Verif.Tie.Loops Require CranRange.
+From Verif.Tie.Loops Require ScanMore Rpm RpmRange.
+From Verif.Tie.Loops Require Alpm AlpmRange Gem.
+From Verif.Tie.Loops Require PadIdx Pypi Alpine Maven.
